@@ -133,7 +133,9 @@ def gen_case(rng):
             # names are free-form labels: the satellite / sensor that joins by an event may carry the name of an agent already present
             "dup_names": rng.random() < 0.35,
             # output written every m-th step: when an event takes effect does not depend on the output cadence
-            "out_mult": rng.choice([1, 1, 1, 2, 3])}
+            "out_mult": rng.choice([1, 1, 1, 2, 3]),
+            # the configured stop instant is the end of the last executed step (events on the final epoch are inside the span)
+            "stop_at_last_step": rng.random() < 0.35}
 
 
 # ---------------------------------------------------------------------------------------------
@@ -215,7 +217,7 @@ def build_cfg(case):
             for key in ("start_time", "end_time"):
                 if key in ev:
                     ev[key] = ev[key] + "Z"
-    cfg = sk.scenario_cfg(start, start + timedelta(seconds=(n + 2) * step), step, engines, truth_only=False, model=case.get("model", "two_body"),
+    cfg = sk.scenario_cfg(start, start + timedelta(seconds=(n if case.get("stop_at_last_step") else n + 2) * step), step, engines, truth_only=False, model=case.get("model", "two_body"),
                           filter_model="two_body", events=evs, seed=7, output_step=step * case.get("out_mult", 1))
     return cfg
 
@@ -395,6 +397,12 @@ def eval_case(ctx, case):
 
     # ---- map event rows to case events (same order after sorting by start time; ties keep config order)
     order = sorted(range(len(events)), key=lambda i: events[i]["off"])
+    if len(rows) < len(events):
+        # every generated event lies inside the simulated span (after the start, up to and including the last step): one that is
+        # not stored can never be delivered
+        ctx.check(False, "configured-event-not-stored", f"{len(events)} events are configured inside the simulated span (offsets {sorted(e['off'] for e in events)} s, last step ends at {n * step} s, "
+                  f"configured stop {'= last step' if case.get('stop_at_last_step') else '> last step'}) but the scenario's events table holds {len(rows)}", wit, mon="delivery_once")
+        return False
     if len(rows) != len(events):
         ctx.inconclusive_because(f"events table holds {len(rows)} rows for {len(events)} configured events")
         return False
